@@ -38,11 +38,11 @@ ASSUMPTIONS = ['elfi.methods.mcmc reaches numpy through its module global `np` (
                'confirmed on a second independent seed',
                'an exact tie u == ratio (probability ~2^-53) is skipped: not observable']
 CONFIG = {
-    'quick': {'shards': 16, 'cases': 48, 'timeout': 600, 'floor': 150},
-    'thorough': {'shards': 32, 'cases': 480, 'timeout': 3000, 'floor': 3000},
+    'quick': {'shards': 16, 'cases': 36, 'timeout': 600, 'floor': 120},
+    'thorough': {'shards': 32, 'cases': 360, 'timeout': 3000, 'floor': 2300},
 }
 REQUIRED = ['met_chains', 'met_steps_walked', 'met_accepts', 'met_rejects', 'met_rejects_nonfinite',
-            'met_replay_bitwise_equal', 'met_trace_ok', 'nuts_chains', 'states_reevaluated_metropolis',
+            'met_replay_compared', 'met_trace_ok', 'nuts_chains', 'states_reevaluated_metropolis',
             'states_reevaluated_nuts', 'determinism_pairs_metropolis', 'determinism_pairs_nuts',
             'moment_stats_metropolis', 'moment_stats_nuts', 'target_evals_nan', 'target_evals_neginf',
             'nuts_stepsize_searched', 'nuts_stepsize_given', 'nuts_iter_eq_adapt_plus_1']
@@ -322,6 +322,12 @@ def trace_walk(ctx, rec, tlog, kw, chain):
         prop = prev + sigma * Z[k]
         w = {'returned_index': i, 'step': k, 'returned': chain[i], 'by_rule': exp[i], 'previous': prev, 'proposal': prop,
              'u': float(U[k]), 'warmup': warmup}
+        allst = np.vstack([x0[None], states])          # allst[j] = state after j steps
+        for shift in (-2, -1, 1, 2):
+            lo = warmup + 1 + shift
+            if lo >= 0 and lo + n <= len(allst) and np.array_equal(chain, allst[lo:lo + n]) and not np.array_equal(allst[lo:lo + n], exp):
+                return ('met-warmup-slice', 'the returned states are states %d..%d of the chain instead of warmup+1..warmup+n '
+                        '(warmup=%d, n=%d)' % (lo, lo + n - 1, warmup, n), w)
         if np.array_equal(chain[i], prev) or np.array_equal(chain[i], prop):
             return ('met-acceptance', 'returned state %d (step %d) is the opposite of the rule "accept iff u < ratio and the '
                     'proposed log-target is finite"' % (i, k), w)
@@ -522,6 +528,7 @@ def run_case(ctx, case):
         bad = trace_walk(ctx, rec, tlog, kw, chain)
         rep = replay_metropolis(tgt, kw)
         equal = isinstance(chain, np.ndarray) and chain.shape == rep.shape and np.array_equal(chain, rep)
+        ctx.event('met_replay_compared')
         if equal:
             ctx.event('met_replay_bitwise_equal')
             if bad is None:
